@@ -63,7 +63,10 @@ class ResolveOuterVars(ast.NodeTransformer):
                 if undefined:
                     res.append(asty.Global(node, names=list(undefined)))
                 if defined:
-                    res.append(asty.Nonlocal(node, names=list(defined)))
+                    # Keep the order of the declaration. (`defined` is a set,
+                    # so its own order varies with the hash seed.)
+                    res.append(asty.Nonlocal(node, names=[
+                        name for name in node.names if name in defined]))
                 return res
             defined.update(has.intersection(undefined))
             undefined = [name for name in undefined if name not in has]
